@@ -15,6 +15,13 @@ chain order and represents every auxiliary pointer the way the C code has it, as
   current chain on every use (`linkPos`), exactly as the C code dereferences `*itr->elem` on every
   use; a link living in a node that is no longer in the chain is a dangling pointer (`fault`).
 
+Scope of the model: one container handle and at most one live iterator handle per history (the C
+API allows several iterators on one container; they are independent objects and each one alone is
+what the theorems speak about).  `len` is a `Nat` and `len--` is truncated subtraction: the C field
+is a `size_t`, the difference only shows when `len` is already wrong (`len = 0` with a non-empty
+chain), which the well-formedness theorem excludes.  `-ENOMEM` paths are not modelled (the
+allocator of the harness does not fail).
+
 Node identities are handed out by an allocation counter (`fresh`).  User data are fake pointers
 `Val = Nat`, `0` is `NULL`.  Destructor calls and the element an iterator is positioned on after
 `new`/`next` are output events (`St.log`).
